@@ -38,7 +38,7 @@ def with_want(scens, want):
 
 
 def fam_general(rng, tier):
-    return (gen.fam_fixed(rng, n(tier, 60, 400)) + gen.fam_stream(rng, n(tier, 150, 1500)) + gen.fam_garbage(rng, n(tier, 80, 600)) +
+    return (gen.fam_boundaries(rng) + gen.fam_fixed(rng, n(tier, 60, 400)) + gen.fam_stream(rng, n(tier, 150, 1500)) + gen.fam_garbage(rng, n(tier, 80, 600)) +
             gen.fam_orphan(rng, n(tier, 60, 500)))
 
 
@@ -48,14 +48,14 @@ def fam_fixed_all(rng, tier):
 
 
 def fam_v9(rng, tier):
-    return gen.fam_stream(rng, n(tier, 200, 2000), versions=(9,), calls=(1, 5)) + gen.fam_redefine(rng, n(tier, 40, 300)) + \
+    return gen.fam_boundaries(rng) + gen.fam_stream(rng, n(tier, 200, 2000), versions=(9,), calls=(1, 5)) + gen.fam_redefine(rng, n(tier, 40, 300)) + \
         gen.fam_stream(rng, n(tier, 200, 2000), versions=(9,), calls=(1, 5), lossless=True) + \
         gen.fam_stream(rng, n(tier, 100, 800), versions=(9,), calls=(1, 4), lossless=True, wild=True) + \
         gen.fam_widths(rng, 9, sample=n(tier, 120, None))
 
 
 def fam_ipfix(rng, tier):
-    return gen.fam_stream(rng, n(tier, 200, 2000), versions=(10,), calls=(1, 5)) + gen.fam_redefine(rng, n(tier, 40, 300)) + \
+    return gen.fam_boundaries(rng) + gen.fam_stream(rng, n(tier, 200, 2000), versions=(10,), calls=(1, 5)) + gen.fam_redefine(rng, n(tier, 40, 300)) + \
         gen.fam_stream(rng, n(tier, 300, 3000), versions=(10,), calls=(1, 5), lossless=True, simple_ipfix=True) + \
         gen.fam_stream(rng, n(tier, 100, 800), versions=(10,), calls=(1, 4), lossless=True, simple_ipfix=True, wild=True) + \
         gen.fam_widths(rng, 10, sample=n(tier, 150, None))
@@ -67,7 +67,7 @@ def fam_cache(rng, tier):
 
 
 def fam_c07(rng, tier):
-    return gen.fam_unknown_template(rng, n(tier, 150, 1500))
+    return gen.fam_boundaries(rng) + gen.fam_unknown_template(rng, n(tier, 150, 1500))
 
 
 def fam_c11(rng, tier):
